@@ -166,3 +166,13 @@ Theorem C04_streamline_invariant :
 Proof. exact streamline_derivative_zero. Qed.
 Print Assumptions C04_streamline_invariant.
 
+
+(* integrated form: along any curve that follows the direction field on [a, b] in front of the
+   source, x / sigma_x(z) keeps the value it has at a  (mean value theorem) *)
+Theorem C04_streamline_constant :
+  forall (s t : R) (x : R -> R) (a b : R),
+  (0 < s)%R -> (0 < a)%R ->
+  (forall z, (a <= z <= b)%R -> is_derive x z (ex_R s t (x z) z / z)%R) ->
+  forall z, (a <= z <= b)%R -> (x z / sigma_R s t z = x a / sigma_R s t a)%R.
+Proof. exact streamline_constant. Qed.
+Print Assumptions C04_streamline_constant.
